@@ -7,24 +7,31 @@
   Model: `EG.Triangle` (EG/Model/Triangle.lean = src/primitives/triangle/*.rs as they are now).
   Helper lemmas: EG/Lemmas/Triangle*.lean.
 
-  Proved for ALL vertex triples (unbounded integers, colinear and coincident vertices included):
-  vertex-order independence (of `sorted_yx`, of `area_doubled` up to sign, of the bounding box, of
-  the rasterised edge lines, of every row span and of the whole `points()` list), the closed form of
-  `points()` (rows of the bounding box in order, one contiguous span per row, spans taken until the
-  first empty one), and the structural half of the shared-edge claim (both triangles rasterise the
-  shared edge as the same `Line` between the `(y, x)`-sorted end points and every row span is the
-  fold of `bresenham_intersection` over the edge lines).
+  Proved for ALL vertex triples (unbounded integers, colinear and coincident vertices included;
+  `Rect.InRange` of the bounding box = `Rectangle::rows()` does not saturate `i32`, where needed):
+  * vertex-order independence: of `sorted_yx`, of `area_doubled` up to sign, of the bounding box, of
+    the rasterised edge lines, of every row span and of the whole `points()` list;
+  * the closed form of `points()`: rows of the bounding box top to bottom, one non-empty contiguous
+    span per row = the hull of the Bresenham edge pixels of that row (the early `None` of the
+    non-fused iterators never fires); strictly row-major, no point twice;
+  * `closed_triangle_covered` / `interior_covered`: every lattice point of the closed mathematical
+    triangle is covered;
+  * `covered_within_one_pixel`: every covered point is inside the closed triangle or at Euclidean
+    distance <= 1 (in fact <= 1/2) from an edge segment;
+  * `shared_edge_same_pixels` / `shared_edge_pixels_in_both`: both triangles rasterise a shared edge
+    as the same `Line` between the `(y, x)`-sorted end points, and all its pixels are in both point
+    lists; `mesh_gap_free`: no lattice point of the quadrilateral's interior is missed;
+  * `triangle_translate`, `triangle_contains_translate` (exported for C07).
 
-  Not proved (the full statements are the `def .. : Prop` below; checked by the oracle of
-  harness/src/m_tri.rs against exact integer geometry on the real code, which the model reproduces
-  op for op):
-  -- [V] every covered point is inside the closed triangle or within Euclidean distance 1 of an edge segment (`CoveredWithinOnePixel`): carried by correspondence + oracle only
+  Not proved (the full statement is the `def .. : Prop` at the end; checked by the oracle of
+  harness/src/m_tri.rs on the real code, which the model reproduces op for op on `tri.outline`):
   -- [V] a one-pixel outline is the union of its three edge lines (`OutlineIsEdgeLines`; the join code for stroke width 1 is a model parameter, see EG/Model/Triangle.lean): carried by correspondence + oracle only
 -/
 import EG.Lemmas.TrianglePoints
 import EG.Lemmas.TriangleTranslate
 import EG.Lemmas.TriangleSpan
 import EG.Lemmas.TriangleCover
+import EG.Lemmas.TriangleNear
 namespace EG.C19
 open EG EG.Triangle
 
@@ -195,15 +202,6 @@ def ClosedInside (t : Triangle) (p : Pt) : Prop :=
   ((0 ≤ cross t.v1 t.v2 p ∧ 0 ≤ cross t.v2 t.v3 p ∧ 0 ≤ cross t.v3 t.v1 p) ∨
    (cross t.v1 t.v2 p ≤ 0 ∧ cross t.v2 t.v3 p ≤ 0 ∧ cross t.v3 t.v1 p ≤ 0))
 
-/-- The Euclidean distance from `p` to the segment `a b` is at most 1 (exact integer form, the
-metric of the oracle). -/
-def NearSegment (a b p : Pt) : Prop :=
-  let l := (b.x - a.x) * (b.x - a.x) + (b.y - a.y) * (b.y - a.y)
-  let s := (p.x - a.x) * (b.x - a.x) + (p.y - a.y) * (b.y - a.y)
-  if s ≤ 0 then (p.x - a.x) * (p.x - a.x) + (p.y - a.y) * (p.y - a.y) ≤ 1
-  else if s ≥ l then (p.x - b.x) * (p.x - b.x) + (p.y - b.y) * (p.y - b.y) ≤ 1
-  else cross a b p * cross a b p ≤ l
-
 /-- `p` lies on the open segment `a b`. -/
 def OnOpenSegment (a b p : Pt) : Prop :=
   cross a b p = 0 ∧
@@ -294,11 +292,32 @@ example : ((0 : Int) < cross ⟨0, 0⟩ ⟨4, 6⟩ ⟨-3, 4⟩ ∧ cross ⟨0, 0
     OnOpenSegment ⟨0, 0⟩ ⟨4, 6⟩ ⟨2, 3⟩ := by
   unfold OnOpenSegment cross; decide
 
-/-! ## Full-strength statements of the sub-claims that are not proved ([V]) -/
+/-! ## Every covered point is inside the triangle or within one pixel of an edge -/
 
-/-- [V] Every covered point is inside the triangle or within one pixel of an edge. -/
-def CoveredWithinOnePixel : Prop := ∀ (t : Triangle) (p : Pt), p ∈ t.points →
-  ClosedInside t p ∨ NearSegment t.v1 t.v2 p ∨ NearSegment t.v2 t.v3 p ∨ NearSegment t.v3 t.v1 p
+/-- **Every point of `points()` is inside the closed mathematical triangle or within one pixel of an
+edge**: its Euclidean distance to one of the three edge segments is at most 1 (`NearSegment`, the
+exact integer metric of the oracle: with `s = (p-a)·(b-a)`, `L = |b-a|²`: `s ≤ 0`: `|p-a|² ≤ 1`;
+`s ≥ L`: `|p-b|² ≤ 1`; else `((b-a)×(p-a))² ≤ L`). For all triangles, colinear and coincident
+vertices included. (A covered point passes `contains()`: closed triangle or a Bresenham edge pixel,
+and those are within half a pixel of their segment.) -/
+theorem covered_within_one_pixel (t : Triangle) (h : t.boundingBox.InRange) (p : Pt)
+    (hp : p ∈ t.points) :
+    ClosedInside t p ∨ NearSegment t.v1 t.v2 p ∨ NearSegment t.v2 t.v3 p ∨ NearSegment t.v3 t.v1 p := by
+  rcases Triangle.covered_within_one_pixel t h p hp with ⟨ha, hc⟩ | hn
+  · left
+    unfold ClosedInside
+    simp only [cross_eq_edgeFn]
+    rw [edgeFn_area]
+    exact ⟨ha, hc⟩
+  · exact Or.inr hn
+
+example : (⟨⟨0, 0⟩, ⟨9, 2⟩, ⟨4, 6⟩⟩ : Triangle).boundingBox.InRange ∧
+    (⟨2, 0⟩ : Pt) ∈ (⟨⟨0, 0⟩, ⟨9, 2⟩, ⟨4, 6⟩⟩ : Triangle).points ∧
+    ¬ ClosedInside ⟨⟨0, 0⟩, ⟨9, 2⟩, ⟨4, 6⟩⟩ ⟨2, 0⟩ := by
+  refine ⟨by decide, by decide, ?_⟩
+  unfold ClosedInside cross; decide
+
+/-! ## Full-strength statement of the sub-claim that is not proved ([V]) -/
 
 /-- [V] A one-pixel outline consists of its three edge lines (as the code orients them: the edges
 of the `sorted_clockwise` triangle, each from its second-next to its next vertex). -/
